@@ -17,6 +17,10 @@ func oblProps(c *Contract, o *Obligation) []string {
 	switch o.Kind {
 	case "panic", "decreases":
 		return []string{"C13"}
+	case "canary":
+		if strings.Contains(o.Name, ".nopanic.") {
+			return []string{"C13"}
+		}
 	}
 	// clause labels may restrict: label "ea@C02+C01"
 	if i := strings.Index(o.Name, "@C"); i >= 0 && o.Kind != "panic" {
